@@ -529,6 +529,8 @@ func checkC06(c *core.Ctx) {
 	ruleExecuteStore(c)
 	ruleRevertBalanceCheck(c)
 	ruleWithdrawAll(c)
+	ruleVMBalanceTracking(c)
+	ruleReadCommitted(c)
 }
 
 func ruleGetBalancesShape(c *core.Ctx) {
